@@ -220,13 +220,21 @@ func getEngines() []*engine {
 		wasi_snapshot_preview1.MustInstantiate(ctx, e.rt)
 		_, err := e.rt.NewHostModuleBuilder("env").
 			NewFunctionBuilder().WithGoModuleFunction(api.GoModuleFunc(e.hop), []api.ValueType{api.ValueTypeI32}, []api.ValueType{api.ValueTypeI32}).Export("hop").
-			NewFunctionBuilder().WithFunc(func(ctx context.Context, mod api.Module, k uint32) { hostPanics[k].Do() }).Export("host_panic").
+			NewFunctionBuilder().WithFunc(func(ctx context.Context, mod api.Module, k uint32) {
+			e.sawModule(mod)
+			hostPanics[k].Do()
+		}).Export("host_panic").
 			NewFunctionBuilder().WithFunc(func(ctx context.Context, mod api.Module, code, how uint32) {
+			e.sawModule(mod)
 			if how == 1 {
 				mod.CloseWithExitCode(ctx, code)
 			}
 			panic(sys.NewExitError(code))
-		}).Export("host_exit").Instantiate(ctx)
+		}).Export("host_exit").
+			NewFunctionBuilder().WithFunc(func(ctx context.Context, mod api.Module, tag uint32) uint32 {
+			e.sawModule(mod)
+			return tag + obsAdd
+		}).Export("observe").Instantiate(ctx)
 		if err != nil {
 			panic(err)
 		}
@@ -243,18 +251,45 @@ func getEngines() []*engine {
 	return engines
 }
 
-var nestedNames = []string{"nest", "via_peer", "inc", "trap", "rec", "ghp", "gexit"}
+var nestedNames = []string{"nest", "via_peer", "inc", "trap", "rec", "ghp", "gexit", "obs", "ighp", "igexit", "iobs", "vp_ghp", "vp_gexit", "vp_obs"}
+
+var slotNames = [nSlot]string{"peer", "a", "c"}
+
+// sawModule is the monitor of every host function that takes an api.Module:
+// it records which module wazero handed over (its name and the identity marker
+// the harness wrote into that module's memory).
+func (e *engine) sawModule(mod api.Module) {
+	r := e.active
+	if r == nil {
+		return
+	}
+	seen := "nil"
+	if mod != nil {
+		seen = mod.Name()
+		if mem := mod.Memory(); mem == nil {
+			seen += "/no-memory"
+		} else if v, ok := mem.ReadUint64Le(markerAddr); !ok {
+			seen += "/unreadable"
+		} else {
+			seen += fmt.Sprintf("/%#x", v)
+		}
+	}
+	r.modSeen = append(r.modSeen, seen)
+}
+
 var topNames = []string{"get", "store", "load", "tset", "tcall", "tprobe", "tnull"}
 
 type rinst struct {
-	mod api.Module
-	fns map[string][]api.Function // name -> per nesting level
+	mod    api.Module
+	marker uint64
+	fns    map[string][]api.Function // name -> per nesting level
 }
 
 func newRinst(mod api.Module) *rinst {
 	ri := &rinst{mod: mod, fns: map[string][]api.Function{}}
+	defs := mod.ExportedFunctionDefinitions()
 	for _, n := range nestedNames {
-		if mod.ExportedFunctionDefinitions()[n] == nil {
+		if defs[n] == nil {
 			continue
 		}
 		for l := 0; l < nLevels; l++ {
@@ -280,6 +315,8 @@ type runner struct {
 	inst     [nSlot]*rinst
 	cur      *op
 	hostSeen []string
+	modSeen  []string // modules handed to the host functions during the current operation
+	markers  uint64
 	findings []finding
 	trans    []string // canonical transcript for the engine differential
 	probes   int
@@ -301,6 +338,7 @@ func (r *runner) report(i int, sig, detail string) {
 // the current operation's plan.
 func (e *engine) hop(ctx context.Context, mod api.Module, stack []uint64) {
 	r := e.active
+	e.sawModule(mod)
 	level := int(int32(stack[0]))
 	if r == nil || r.cur == nil || level < 0 || level >= len(r.cur.Steps) {
 		panic(fmt.Sprintf("c06 harness: hop(%d) without a plan", level))
@@ -331,9 +369,11 @@ func (e *engine) hop(ctx context.Context, mod api.Module, stack []uint64) {
 		case "rec":
 			res, err = r.call(t.fns["rec"][level+1], uint64(l.RecK), uint64(l.RecD), l.RecA, uint64(l.Addr), l.Val)
 		case "ghp":
-			_, err = r.call(t.fns["ghp"][level+1], uint64(l.HK), uint64(l.Addr), l.Val)
+			_, err = r.call(t.fns[formFn("ghp", l.Ind, l.ViaImp)][level+1], formArgs(l.Ind, l.ViaImp, uint64(l.HK), uint64(l.Addr), l.Val)...)
 		case "gexit":
-			_, err = r.call(t.fns["gexit"][level+1], uint64(l.Code), uint64(l.How), uint64(l.Addr), l.Val)
+			_, err = r.call(t.fns[formFn("gexit", l.Ind, l.ViaImp)][level+1], formArgs(l.Ind, l.ViaImp, uint64(l.Code), uint64(l.How), uint64(l.Addr), l.Val)...)
+		case "obs":
+			res, err = r.call(t.fns[formFn("obs", l.Ind, l.ViaImp)][level+1], formArgs(l.Ind, l.ViaImp, uint64(l.HK))...)
 		}
 	} else {
 		name := "nest"
@@ -365,6 +405,24 @@ func (e *engine) hop(ctx context.Context, mod api.Module, stack []uint64) {
 	}
 }
 
+// formFn / formArgs select the export and arguments for a call form of ghp/gexit/obs.
+func formFn(base string, ind, viaImp bool) string {
+	switch {
+	case viaImp:
+		return "vp_" + base
+	case ind:
+		return "i" + base
+	}
+	return base
+}
+
+func formArgs(ind, viaImp bool, args ...uint64) []uint64 {
+	if viaImp {
+		return append([]uint64{b2u(ind)}, args...)
+	}
+	return args
+}
+
 func (r *runner) instantiate(slot int, small bool) error {
 	e := r.eng
 	var mod api.Module
@@ -373,16 +431,21 @@ func (r *runner) instantiate(slot int, small bool) error {
 	case slot == slotB:
 		mod, err = e.rt.InstantiateModule(r.ctx, e.cm[0], wazero.NewModuleConfig().WithName("peer").WithStartFunctions())
 	case slot == slotA:
-		mod, err = e.rt.InstantiateModule(r.ctx, e.cm[1], wazero.NewModuleConfig().WithName("").WithStartFunctions())
+		mod, err = e.rt.InstantiateModule(r.ctx, e.cm[1], wazero.NewModuleConfig().WithName(slotNames[slotA]).WithStartFunctions())
 	case small:
-		mod, err = e.rt.InstantiateWithConfig(r.ctx, e.small, wazero.NewModuleConfig().WithName("").WithStartFunctions())
+		mod, err = e.rt.InstantiateWithConfig(r.ctx, e.small, wazero.NewModuleConfig().WithName(slotNames[slotC]).WithStartFunctions())
 	default:
-		mod, err = e.rt.InstantiateModule(r.ctx, e.cm[0], wazero.NewModuleConfig().WithName("").WithStartFunctions())
+		mod, err = e.rt.InstantiateModule(r.ctx, e.cm[0], wazero.NewModuleConfig().WithName(slotNames[slotC]).WithStartFunctions())
 	}
 	if err != nil {
 		return err
 	}
 	r.inst[slot] = newRinst(mod)
+	r.markers++
+	r.inst[slot].marker = 0xc06<<32 | uint64(slot+1)<<16 | r.markers
+	if !mod.Memory().WriteUint64Le(markerAddr, r.inst[slot].marker) {
+		return errors.New("c06 harness: cannot write the identity marker")
+	}
 	return nil
 }
 
@@ -410,6 +473,7 @@ func (r *runner) exec(o *op) (res []uint64, err error) {
 	ctx := r.ctx
 	r.cur = o
 	r.hostSeen = make([]string, len(o.Steps))
+	r.modSeen = r.modSeen[:0]
 	defer func() { r.cur = nil }()
 	ri := r.inst[o.Slot]
 	f := func(name string) api.Function { return ri.fns[name][0] }
@@ -449,9 +513,11 @@ func (r *runner) exec(o *op) (res []uint64, err error) {
 	case "rec":
 		return r.call(f("rec"), uint64(o.K), uint64(o.D), o.A, uint64(o.Addr), o.Val)
 	case "ghp":
-		return r.call(f("ghp"), uint64(o.K), uint64(o.Addr), o.Val)
+		return r.call(f(formFn("ghp", o.Ind, o.ViaImp)), formArgs(o.Ind, o.ViaImp, uint64(o.K), uint64(o.Addr), o.Val)...)
 	case "gexit":
-		return r.call(f("gexit"), uint64(o.Code), uint64(o.How), uint64(o.Addr), o.Val)
+		return r.call(f(formFn("gexit", o.Ind, o.ViaImp)), formArgs(o.Ind, o.ViaImp, uint64(o.Code), uint64(o.How), uint64(o.Addr), o.Val)...)
+	case "obs":
+		return r.call(f(formFn("obs", o.Ind, o.ViaImp)), formArgs(o.Ind, o.ViaImp, uint64(o.K))...)
 	case "nest":
 		if o.Via {
 			return r.call(f("via_peer"), 0)
@@ -545,7 +611,8 @@ func (r *runner) probe(i int, o *op, failing bool) string {
 				bad("memory", fmt.Sprintf("mem[%d]=%#x, model says %#x", a, v[0], want.Cells[ci]))
 			}
 		}
-		for idx, wantNull := range []uint64{b2u(want.TSlot == 0), 1, 0, 1} {
+		for pi, wantNull := range []uint64{b2u(want.TSlot == 0), 1, 0, 1} {
+			idx := []int{0, 1, 2, tableSize - 1}[pi]
 			v, err := ri.fns["tnull"][0].Call(ctx, uint64(idx))
 			if err != nil || len(v) != 1 {
 				bad("table", fmt.Sprintf("tnull(%d) failed: %v", idx, err))
@@ -615,6 +682,7 @@ func runHistory(e *engine, ops []*op, probeSel func(i int) bool, log bool) *runn
 		if len(o.WantHost) > 0 {
 			line += " host=" + strings.Join(r.hostSeen, ",")
 		}
+		r.checkModules(i, o, label)
 		failing := o.WantClass != "ok" || got != "ok" || len(o.Fails) > 0
 		if failing || probeSel(i) || i == len(ops)-1 {
 			line += " | " + r.probe(i, o, failing)
@@ -631,6 +699,31 @@ func runHistory(e *engine, ops []*op, probeSel func(i int) bool, log bool) *runn
 		}
 	}
 	return r
+}
+
+// checkModules compares the modules handed to the instrumented host functions
+// during o with the instances whose code performed the calls.
+func (r *runner) checkModules(i int, o *op, label string) {
+	want := func(ev modEvt) string {
+		if ev.Slot < 0 {
+			return "tmp/0x0"
+		}
+		return fmt.Sprintf("%s/%#x", slotNames[ev.Slot], r.inst[ev.Slot].marker)
+	}
+	for k, ev := range o.WantMods {
+		if k >= len(r.modSeen) {
+			break
+		}
+		if got := r.modSeen[k]; got != want(ev) {
+			r.report(i, fmt.Sprintf("host-function-handed-wrong-module:%s:%s", r.eng.name, ev.Form),
+				fmt.Sprintf("op %d %s: host function %s called by code of instance %s (%s) received module %s (name/marker)", i, o.desc(), ev.Fn, want(ev), ev.Form, got))
+			return
+		}
+	}
+	if len(o.WantMods) != len(r.modSeen) && len(r.findings) == 0 {
+		r.report(i, fmt.Sprintf("host-calls-differ:%s:%s", r.eng.name, label),
+			fmt.Sprintf("op %d %s: %d host function calls observed, model says %d\nseen: %v\nwant: %v", i, o.desc(), len(r.modSeen), len(o.WantMods), r.modSeen, o.WantMods))
+	}
 }
 
 func trunc(s string, n int) string {
